@@ -1049,9 +1049,13 @@ def run(ctx) -> Result:
             except FTimeout:
                 res.notes.append(f"time budget reached after {len(results)} of {len(cases)} differential cases")
         finally:
+            procs = list((getattr(pool, "_processes", None) or {}).values())
             pool.shutdown(wait=False, cancel_futures=True)
-            for proc in list(getattr(pool, "_processes", {}).values()):
-                proc.terminate()
+            for proc in procs:
+                try:
+                    proc.terminate()
+                except Exception:  # noqa: BLE001
+                    pass
         # deterministic order of reporting
         results.sort(key=lambda co: json.dumps(co[0], sort_keys=True, default=str))
         for case, out in results:
